@@ -32,10 +32,14 @@ RULE = ('cases = batches of data lines / sources drawn from the quantifier of C2
         'line; distinct = distinct canonical hash of the generated batch')
 REQUIRED_BRANCHES = ['eof', 'reject_columns_mod1', 'reject_columns_mod2', 'reject_flag', 'reject_number', 'accept_n0',
                      'accept', 'roundtrip', 'name_longer_than_30', 'placeholder_999', 'negative_value', 'mixed_whitespace',
-                     'dict_roundtrip', 'pickle_roundtrip', 'n12', 'fmt_text']
-ASSUMPTIONS = ['IEEE negative zero is outside the rational model (sources are generated without -0.0)',
+                     'dict_roundtrip', 'pickle_roundtrip', 'n12', 'fmt_text', 'parse_format_parse', 'valid_float_array',
+                     'spelling_inf_nan', 'spelling_underscore', 'spelling_flag']
+ASSUMPTIONS = ['IEEE negative zero is excluded from the formatted sources: the rational model has a single zero, Python prints -0.0 '
+               'as "-0.00000" / "-0.000e+00" (a sign the model cannot carry), and both texts read back as a value equal to 0, '
+               'so nothing the property states depends on it; tokens such as "-0.0" are still parsed and compared',
                'Python float()/int() and %e/%f formatting are compared with the model\'s exact decimal arithmetic by correspondence only',
-               'number tokens are plain decimal literals (no underscores, inf, nan, non-ASCII digits); names contain no whitespace']
+               'number tokens: decimal literals, PEP 515 underscores, inf/infinity/nan in any case are modelled and compared; '
+               'non-ASCII digits and overflow of huge exponents are not; names contain no whitespace']
 EXHAUSTIVE = {'quick': False, 'thorough': True}
 VALID = [0, 1, 2, 3, 4, 9]
 INVALID = [5, 6, 7, 8, -1, 10]
@@ -74,7 +78,7 @@ def spell(rng, v):
     if k == 3:
         return '%.17g' % v
     if k == 4 and v == int(v) and abs(v) < 1e15:
-        return rng.choice(['%d', '%d.', '+%d', '%d.0']) % int(v)
+        return rng.choice(['%d', '%d.', '+%d', '%d.0'] if v >= 0 else ['%d', '%d.', '%d.0']) % int(v)
     if k == 5 and 1e-4 < abs(v) < 1e6:
         return ('%.8f' % v)
     if k == 6 and 0 < abs(v) < 1:
@@ -172,6 +176,24 @@ def gen_cases(seed, tier):
     yield dict(type='lines', what='whitespace', n=2,
                lines=['', ' ', '\n', '\t \n', 'name', 'name 1.0', ' name 1.0 \n', 'name 1 2', 'name 1 2\n'] +
                      [layout(rng, good_tokens(rng, rng.randint(0, 4)), exotic=True) for _ in range(60)], seed=seed)
+    # what Python's float() / int() accept beyond plain decimals is part of the glue
+    rng = rng_next()
+    lines = []
+    for tok in ['inf', '-inf', '+inf', 'Infinity', 'INF', '-INFINITY', 'nan', 'NaN', '-nan', '+NAN',
+                '1_0', '1_000.5', '1e1_0', '1_0.', '.5_5', '-1_2.3_4e-0_5',
+                '1__0', '_1', '1_', '1_.5', '1._5', '1e_5', '1_e5', 'infin', 'na', 'in', 'infinity_', '+-999', '-+1']:
+        for n in (1, 2):
+            for pos in sorted({1, 2, 3 + n, 3 * n + 2}):
+                t = good_tokens(rng, n)
+                t[pos] = tok
+                lines.append(layout(rng, t))
+    for tok in ['01', '+1', '001', '+0', '-0', '0_1', '00_9', '+4', '1_0', '0_5', '1.0', '1e0', '1.', '+', '1_', '_1', '-1', '+9', '09']:
+        for n in (1, 3):
+            for pos in (0, n - 1):
+                t = good_tokens(rng, n)
+                t[3 + pos] = tok
+                lines.append(layout(rng, t))
+    yield dict(type='lines', what='spellings', n=3, lines=lines, seed=seed)
     # random blocks
     nrand = 100 if tier == 'quick' else 2500
     for k in range(nrand):
@@ -189,7 +211,15 @@ def gen_cases(seed, tier):
                              y=round(rng.uniform(-90, 90), rng.randint(0, 9)) + 0.0,
                              valid=[rng.choice(VALID) for _ in range(n)],
                              flux=[gen_value(rng) for _ in range(n)], error=[gen_value(rng) for _ in range(n)]))
+        if k % 5 == 4:
+            for sd in srcs:
+                sd['valid_float'] = True       # flags held as an integer-valued float array (the setter admits it)
         yield dict(type='roundtrip' if k % 3 else 'state', sources=srcs, seed=seed)
+    # parse -> format -> parse: the sources are the ones from_ascii builds (np.float64 x/y, platform-int flags)
+    for k in range(max(4, nrand // 4)):
+        rng = rng_next()
+        yield dict(type='chain', seed=seed,
+                   lines=[layout(rng, good_tokens(rng, rng.choice([0, 1, 2, 3, 5, 12, rng.randint(0, 12)]))) for _ in range(30)])
     rng = rng_next()
     # values sitting next to a rounding tie of the 4th significant digit, and the carry 9.9995 -> 1.000e+01
     near = []
@@ -273,14 +303,17 @@ def model_answer(t):
     if tag == 'E':
         k = t.tok()
         return ('eof',) if k == 'eof' else ('error', k)
+    def xnum():
+        w = t.tok()
+        return float(w) if w in ('inf', '-inf', 'nan') else Fraction(w)
     name = unhex(t.tok())
-    x = t.rat()
-    y = t.rat()
+    x = xnum()
+    y = xnum()
     n = t.nat()
     valid = [int(t.tok()) for _ in range(n)]
     rest = []
     while not t.done():
-        rest.append(t.rat())
+        rest.append(xnum())
     return ('ok', dict(name=name, x=x, y=y, valid=valid, flux=rest[0::2], error=rest[1::2]))
 
 
@@ -295,7 +328,7 @@ def same_fields(got, exp):
     if len(got['flux']) != len(exp['flux']) or len(got['error']) != len(exp['error']):
         return False
     pairs = [(got['x'], exp['x']), (got['y'], exp['y'])] + list(zip(got['flux'], exp['flux'])) + list(zip(got['error'], exp['error']))
-    return all(a == to_float(b) for a, b in pairs)
+    return all(a == to_float(b) or (a != a and to_float(b) != to_float(b)) for a, b in pairs)
 
 
 def src_line(s):
@@ -356,6 +389,13 @@ def run_lines(case, with_model=True):
                 nontrivial = True
             if n == 12:
                 branches.add('n12')
+            vals = [f['x'], f['y']] + f['flux'] + f['error']
+            if any(v != v or v in (float('inf'), float('-inf')) for v in vals):
+                branches.add('spelling_inf_nan')
+            if any('_' in t for t in toks[1:]):
+                branches.add('spelling_underscore')
+            if any(t != str(int(t)) for t in toks[3:3 + n]):
+                branches.add('spelling_flag')
             if len(f['name']) > 30:
                 branches.add('name_longer_than_30')
             if -999. in f['flux'] + f['error']:
@@ -378,7 +418,10 @@ def run_lines(case, with_model=True):
 
 
 def make_src(s):
-    return pk.make_source(s['name'], s['valid'], s['flux'], s['error'], x=s['x'], y=s['y'])
+    src = pk.make_source(s['name'], s['valid'], s['flux'], s['error'], x=s['x'], y=s['y'])
+    if s.get('valid_float'):
+        src.valid = np.array(s['valid'], dtype=float)
+    return src
 
 
 def run_roundtrip(case, with_model=True):
@@ -393,6 +436,8 @@ def run_roundtrip(case, with_model=True):
         except Exception as e:        # noqa
             return False, True, 'to_ascii/from_ascii raised %s: %s on %r' % (type(e).__name__, e, s), branches
         branches.add('roundtrip')
+        if s.get('valid_float') and s['valid']:
+            branches.add('valid_float_array')
         if len(s['name']) > 30:
             branches.add('name_longer_than_30')
         b = fields(back)
@@ -431,10 +476,65 @@ def run_roundtrip(case, with_model=True):
     return True, None, '', branches
 
 
+def neg_zero(v):
+    return v == 0 and math.copysign(1., v) < 0
+
+
+def run_chain(case, with_model=True):
+    """from_ascii(line) -> to_ascii -> from_ascii (-> to_ascii -> from_ascii): the formatted object is the one the
+    parser builds (np.float64 coordinates, platform-int flag array)"""
+    from sedfitter.source import Source
+    branches = set()
+    drv = common.driver() if with_model else None
+    for line in case['lines']:
+        sp = spec(py_tokens(line))
+        if sp[0] != 'ok':
+            continue                   # only well-formed lines enter the chain (the others are compared in `lines` cases)
+        try:
+            p = Source.from_ascii(line)
+            l2 = p.to_ascii()
+            q = Source.from_ascii(l2)
+            l3 = q.to_ascii()
+            r = Source.from_ascii(l3)
+        except Exception as e:        # noqa
+            return False, True, 'parse -> format -> parse raised %s: %s on line %r' % (type(e).__name__, e, line), branches
+        branches.add('parse_format_parse')
+        fp, fq, fr = fields(p), fields(q), fields(r)
+        ok = (fq['name'] == fp['name'] and fq['valid'] == fp['valid'] and len(fq['flux']) == len(fp['flux']) and
+              len(fq['error']) == len(fp['error']) and
+              abs(Fraction(fq['x']) - Fraction(fp['x'])) <= Fraction(1, 200000) * (1 + Fraction(1, 10 ** 9)) and
+              abs(Fraction(fq['y']) - Fraction(fp['y'])) <= Fraction(1, 200000) * (1 + Fraction(1, 10 ** 9)) and
+              all(within_print(v, w) for v, w in zip(fp['flux'], fq['flux'])) and
+              all(within_print(v, w) for v, w in zip(fp['error'], fq['error'])))
+        if not ok:
+            return False, True, ('line %r parsed as %r, formatted as %r, parsed back as %r: not preserved to the printed precision'
+                                 % (line, fp, l2, fq)), branches
+        if fr != fq or l3 != l2:
+            return False, None, 'a second format/parse pass is not a fixed point: %r -> %r -> %r' % (l2, fq, l3), branches
+        if with_model:
+            sd = dict(fp)
+            m = model_answer(drv.ask('roundtrip ' + src_line(sd)))
+            if m[0] != 'ok' or not same_fields(fq, m[1]):
+                return False, None, 'from_ascii(to_ascii(from_ascii(%r))): impl %r, model %r' % (line, fq, m), branches
+            if not any(neg_zero(v) for v in [fp['x'], fp['y']] + fp['flux'] + fp['error']):
+                t = drv.ask('toascii ' + src_line(sd))
+                tag = t.tok()
+                mline = unhex(t.tok()) if tag == 'S' else None
+                if mline != l2:
+                    return False, None, 'to_ascii text of the parsed source differs: impl %r, model %r' % (l2, mline), branches
+    return True, None, '', branches
+
+
 def src_equal(a, b):
-    fa, fb = fields(a), fields(b)
-    return (fa == fb and type(a.name) is type(b.name) and
-            all(np.asarray(getattr(a, k)).dtype == np.asarray(getattr(b, k)).dtype for k in ('valid', 'flux', 'error')))
+    """lossless in the property's sense: the six fields hold the same values"""
+    return fields(a) == fields(b)
+
+
+def src_same_types(a, b):
+    """beyond the property (reported as model/implementation disagreement only): same container and element types"""
+    return (type(a.name) is type(b.name) and type(a.x) is type(b.x) and type(a.y) is type(b.y) and
+            all(type(getattr(a, k)) is type(getattr(b, k)) and
+                np.asarray(getattr(a, k)).dtype == np.asarray(getattr(b, k)).dtype for k in ('valid', 'flux', 'error')))
 
 
 def run_state(case, with_model=True):
@@ -450,6 +550,10 @@ def run_state(case, with_model=True):
             return False, True, 'to_dict/from_dict raised %s: %s on %r' % (type(e).__name__, e, s), branches
         if sorted(d) != ['error', 'flux', 'name', 'valid', 'x', 'y'] or not src_equal(src, back):
             return False, True, 'to_dict/from_dict changed the source %r: %r' % (s, fields(back)), branches
+        if not src_same_types(src, back):
+            return False, None, 'to_dict/from_dict changed a field type of %r' % (s,), branches
+        if s.get('valid_float') and s['valid']:
+            branches.add('valid_float_array')
         branches.add('dict_roundtrip')
         for proto in range(0, pickle.HIGHEST_PROTOCOL + 1):
             try:
@@ -458,9 +562,12 @@ def run_state(case, with_model=True):
                 return False, True, 'pickle protocol %d raised %s: %s on %r' % (proto, type(e).__name__, e, s), branches
             if not src_equal(src, back):
                 return False, True, 'pickle protocol %d changed the source %r: %r' % (proto, s, fields(back)), branches
+            if not src_same_types(src, back):
+                return False, None, 'pickle protocol %d changed a field type of %r' % (proto, s), branches
+        # deepcopy goes through __getstate__/__setstate__ too, but is not named by the property: disagreement only
         back = copy.deepcopy(src)
-        if not src_equal(src, back):
-            return False, True, 'deepcopy changed the source %r: %r' % (s, fields(back)), branches
+        if not (src_equal(src, back) and src_same_types(src, back)):
+            return False, None, 'deepcopy changed the source %r: %r' % (s, fields(back)), branches
         branches.add('pickle_roundtrip')
         if with_model:
             t = drv.ask('dict ' + src_line(s))
@@ -475,6 +582,9 @@ def evaluate(case, with_model=True):
     elif case['type'] == 'roundtrip':
         ok, viol, detail, branches = run_roundtrip(case, with_model)
         nontrivial = True
+    elif case['type'] == 'chain':
+        ok, viol, detail, branches = run_chain(case, with_model)
+        nontrivial = True
     else:
         ok, viol, detail, branches = run_state(case, with_model)
         nontrivial = True
@@ -483,7 +593,9 @@ def evaluate(case, with_model=True):
 
 def run_case(case):
     ok, viol, detail, branches, nontrivial = evaluate(case, True)
-    if case['type'] == 'lines':
+    if case['type'] == 'chain':
+        sample = dict(type=case['type'], n_lines=len(case['lines']), first=case['lines'][:2])
+    elif case['type'] == 'lines':
         sample = dict(type=case['type'], what=case['what'], n=case['n'], n_lines=len(case['lines']), first=case['lines'][:2])
     else:
         sample = dict(type=case['type'], n_sources=len(case['sources']), first=case['sources'][0])
@@ -507,7 +619,7 @@ def search(seed, tier, disagreeing_cases):
 
 def shrink(case):
     """keep only the first failing line / source of the batch"""
-    key = 'lines' if case['type'] == 'lines' else 'sources'
+    key = 'lines' if case['type'] in ('lines', 'chain') else 'sources'
     items = case[key]
     for i in range(len(items)):
         c = dict(case)
